@@ -90,7 +90,7 @@ pub use sentence::VerifSentenceState;
 #[cfg(all(feature = "verif-hooks", feature = "train"))]
 mod verif;
 #[cfg(all(feature = "verif-hooks", feature = "train"))]
-pub use verif::{verif_take_train_trace, VerifFeature, VerifTrainTrace};
+pub use verif::{verif_take_train_trace, VerifFeature, VerifRawLearner, VerifTrainTrace};
 
 #[cfg(feature = "train")]
 pub use trainer::{SolverType, Trainer};
